@@ -27,7 +27,7 @@ def main():
                 "evidence_file": "/verif/evidence/%s.json" % pid,
                 "replay_cmd_template": "./vcheck --replay {path}",
                 "engine": "vcheck",
-                "level_claimed": {"category": "proof", "text": c["level_text"], "design_ref": "DESIGN.md section 5 (%s), section 4 kernels %s" % (pid, c["kernels"])},
+                "level_claimed": {"category": c.get("category", "proof"), "text": c["level_text"], "design_ref": "DESIGN.md section 5 (%s), section 4 kernels %s" % (pid, c["kernels"])},
                 "level_note": c["note"],
                 "technique": TECH,
             })
